@@ -341,3 +341,63 @@ Example ex_batch_second :
   feedback_of (snd (server Z.quot [] ProcIdempotentUnary (put_headers (s_headers s) (render (a ConnectGet))))) = [] /\
   feedback_of (snd (server Z.quot [] ProcIdempotentUnary (put_headers (s_headers s) (render (a ConnectUnary))))) = [KMethod (bs "GET") (bs "POST")].
 Proof. vm_compute. split; reflexivity. Qed.
+
+(* ---------- the line that reaches stderr (internal/printer.go as wired by run(): NewPrinter over the
+   server's stderr -> createServer -> referenceServerChecks -> feedbackPrinter) ---------- *)
+(* for EVERY test name - any bytes: '%', "%s", "%d", "%%", a trailing '%' - and every formatted message, in
+   every state of the writer: the printer adds exactly `name ++ ": " ++ message ++ newline` (no second newline
+   when the message ends in one): the name is copied, never read as a format, and the rest is the message *)
+Theorem feedback_line_names_test_verbatim : forall w name msg,
+  pw_out (prefix_printf w name msg) = pw_out w ++ feedback_line name msg /\
+  pw_last (prefix_printf w name msg) = 10%N.
+Proof. exact feedback_line_names_test_verbatim_proof. Qed.
+Print Assumptions feedback_line_names_test_verbatim.
+
+(* read back the way the runner reads the server's stderr (trim, split at the first ": ", look the first part
+   up among the batch's test names): the line is attributed to exactly that test, with exactly that message *)
+Theorem feedback_line_attributed : forall names name msg,
+  In name names -> no_colon_space name -> starts_visibly name -> trim_right msg <> [] ->
+  sideband names (feedback_line name msg) = Some (name, trim_right msg).
+Proof. exact feedback_line_attributed_proof. Qed.
+Print Assumptions feedback_line_attributed.
+
+(* the feedback of the model (`Served name f ..`: what every theorem above speaks about) IS what reaches
+   stderr: one such line per feedback kind, in order, for every wording `text` of the kinds; nothing for a
+   rejected request *)
+Theorem stderr_is_feedback_lines : forall text w o,
+  pw_out (stderr_of text w o) =
+  pw_out w ++ match o with
+              | Served name f _ _ => concat (map (fun k => feedback_line name (text k)) f)
+              | Rejected => []
+              end.
+Proof. exact stderr_is_feedback_lines_proof. Qed.
+Print Assumptions stderr_is_feedback_lines.
+
+(* composed with server_feedback_exact / silent_iff_match: the bytes on stderr for a request of the matrix,
+   and stderr stays empty exactly on matching pairs - for every test name *)
+Theorem server_stderr_exact : forall text fq name (e : axes) (a : actual) (p : procedure), name <> [] ->
+  pw_out (stderr_of text pw_init (snd (server fq [] p (with_expect name e (render a))))) =
+  concat (map (fun k => feedback_line name (text k)) (expected_feedback e (project a))).
+Proof. exact server_stderr_exact_proof. Qed.
+Print Assumptions server_stderr_exact.
+
+Theorem stderr_silent_iff_match : forall text fq name (e : axes) (a : actual) (p : procedure), name <> [] ->
+  pw_out (stderr_of text pw_init (snd (server fq [] p (with_expect name e (render a))))) = [] <-> project a = e.
+Proof. exact stderr_silent_iff_match_proof. Qed.
+Print Assumptions stderr_silent_iff_match.
+
+(* names full of verbs come out untouched, and are told apart by the runner; a name containing ": " is
+   outside `no_colon_space` and indeed is not attributed (the runner splits at the FIRST ": ") *)
+Example ex_percent_line :
+  pw_out (prefix_printf pw_init (bs "Percent/100%d %s%%") (bs "expected HTTP version 1; instead got 2")) =
+  bs "Percent/100%d %s%%: expected HTTP version 1; instead got 2" ++ [10%N].
+Proof. vm_compute. reflexivity. Qed.
+Example ex_percent_attributed :
+  sideband [bs "a"; bs "50%"; bs "50%d"] (feedback_line (bs "50%") (bs "x: %v y")) = Some (bs "50%", bs "x: %v y") /\
+  no_colon_space (bs "50%") /\ starts_visibly (bs "50%") /\
+  sideband [bs "a: b"] (feedback_line (bs "a: b") (bs "m")) = None.
+Proof.
+  split; [vm_compute; reflexivity|]. split; [|split; [|vm_compute; reflexivity]].
+  - apply no_colon_is_no_colon_space. vm_compute. intuition discriminate.
+  - eexists _, _. split; [vm_compute; reflexivity|reflexivity].
+Qed.
